@@ -451,8 +451,12 @@ func (e *evaluator) typeName(t Term, deep bool) string {
 	if t.Nullable {
 		name += "?"
 	}
-	if t.Default != "" {
+	switch t.Default {
+	case "":
+	case "scalar":
 		name += "=default"
+	default:
+		name += "=default(" + t.Default + ")"
 	}
 	return name
 }
